@@ -129,19 +129,31 @@ def run_check(prop, tier, seed, repo_root, write_ledger, t0):
         ok = e["unsat"] == e["n"]
         ids[oid] = dict(kind=e["kind"], canary=e["canary"], instances=e["n"], discharged=e["unsat"],
                         by=sorted(x for x in e["by"] if x), ms=e["ms"], where=sorted(e["where"]))
+    loop_sigs = {rep.key: rep.loop_signature for rep in reports if getattr(rep, "loop_signature", None) is not None}
     if write_ledger:
         led = {oid: dict(kind=v["kind"], by=v["by"]) for oid, v in sorted(ids.items())
                if not v["canary"] and v["discharged"] == v["instances"]}
         with open(ledger_path, "w") as f:
             json.dump(dict(property=prop, note="ids of obligations discharged on the validated tree; never written by a check run",
-                           obligations=led), f, indent=1, sort_keys=True)
+                           obligations=led, loops=loop_sigs), f, indent=1, sort_keys=True)
         print("ledger written: %d ids" % len(led))
-    ledger = {}
+    ledger, ledger_loops = {}, {}
     if os.path.exists(ledger_path):
         with open(ledger_path) as f:
-            ledger = json.load(f)["obligations"]
+            lj = json.load(f)
+        ledger, ledger_loops = lj["obligations"], lj.get("loops", {})
     elif reports:
         broken.append("no ledger file %s" % ledger_path)
+    # loop invariants are attached to loops by position: when the loops of a function are not the ones the contracts were validated
+    # against (one removed, added, or bound to other names), its invariants no longer talk about the same loops.  The function is then
+    # UNDECIDED - its proof obligations are neither counted as discharged nor reported as violations; the bounded stand-in still runs.
+    restructured = {}
+    for key, sig in loop_sigs.items():
+        was = ledger_loops.get(key)
+        if was is not None and was != sig:
+            restructured[key] = (was, sig)
+            undecided.append("%s: the loops of this function changed (validated against %s, now %s): its invariants are numbered by position and "
+                             "need review" % (key, was, sig))
 
     # canaries must fail
     canaries = {oid: v for oid, v in ids.items() if v["canary"]}
@@ -155,7 +167,13 @@ def run_check(prop, tier, seed, repo_root, write_ledger, t0):
             broken.append("canary %s generated no obligation" % name)
 
     os.makedirs(os.path.join(HERE, "replays", prop), exist_ok=True)
-    failed_ids = [oid for oid, v in ids.items() if not v["canary"] and v["discharged"] != v["instances"]]
+    def _of_restructured(oid):
+        for key in restructured:
+            q = "%s.%s" % (prop, key.split("::")[1])
+            if oid == q or oid.startswith(q + ".") or oid.startswith(q + "#"):
+                return True
+        return False
+    failed_ids = [oid for oid, v in ids.items() if not v["canary"] and v["discharged"] != v["instances"] and not _of_restructured(oid)]
     missing_ids = [oid for oid in ledger if oid not in ids] if not undecided else []
     proof_failures = []
     for oid in failed_ids:
